@@ -107,7 +107,8 @@ REQUIRED = ["CifModel.C12_clean", "CifModel.C12_first_report_is_policy_free", "C
             "CifModel.C12_invalid_char_lead_anywhere", "CifModel.C12_several_defects_bare", "CifModel.C12_invalid_char_lead_bare",
             "CifModel.Model.Lexer.multiS", "CifModel.Model.Lexer.EvUnq.lead", "CifModel.Model.Lexer.multi_bare",
             "CifModel.Model.Lexer.EvText.lead", "CifModel.Model.Lexer.multi_text_scan", "CifModel.Model.Lexer.multi_text",
-            "CifModel.C12_several_defects_text", "CifModel.C12_several_defects_comment_eof",
+            "CifModel.C12_several_defects_text", "CifModel.C12_several_defects_comment_eof", "CifModel.C12_several_defects_triple",
+            "CifModel.Model.Lexer.EvTriple.lead", "CifModel.Model.Lexer.multi_triple",
             # any depth of nesting; frames not allowed (max_frame_depth = 0)
             "CifModel.Model.Parser.Seg.nest", "CifModel.Lemmas.DefectChars.nest_fuel", "CifModel.Props.C12_chars_in_frames",
             "CifModel.Props.C12Frames.C12_chars_in_frames_instance",
@@ -165,8 +166,8 @@ PARTIAL = [
     "_comment, C12_invalid_char_lead_anywhere: a token body is any alternation of admissible runs and events; exactly the reports of the events, each "
     "at its column, in order; die = the oldest) — for data names, comments (ended by a line terminator or by the end of the input), whitespace-delimited values (both dialects; scan_unquoted's data_/save_ "
     "keyword state is carried along: multiS, C12_several_defects_bare), text fields (both dialects; positions and reports follow the line breaks "
-    "inside the token: C12_several_defects_text) and quoted strings (CIF 2.0).  NOT proved universally: "
-    "several defective places / a lead surrogate in the middle of a triple-quoted string and of a CIF 1.1 quoted string; a lead surrogate "
+    "inside the token: C12_several_defects_text), quoted and triple-quoted strings (CIF 2.0; C12_several_defects_triple).  NOT proved universally: "
+    "several defective places in a CIF 1.1 quoted string (embedded quotes); a lead surrogate "
     "followed by another defective unit; CIF_UNMAPPED_CHAR and byte-level CIF_INVALID_CHAR (ICU's converter; family "
     "parsebytes of C03 observes them)",
     "CHARACTER LEVEL (Props/C12Chars, C12Frames, C12Die; Lemmas/DefectChars*, ParserReach): the token-level class theorems carried to whole parses "
